@@ -153,6 +153,10 @@ func (r *Run) tryReplay(o *Obligation, rf *ReplayFile) {
 		tb, err = os.ReadFile(filepath.Join(r.Out, "replay_templates", "prop."+r.Prop+".tmpl"))
 	}
 	if err != nil {
+		// or the property's bounded battery: real programs on the real code
+		tb, err = os.ReadFile(filepath.Join(r.Out, "replay_templates", "bounded."+r.Prop+"-battery.tmpl"))
+	}
+	if err != nil {
 		rf.Note = "no replay template for " + o.Func + "; solver output attached"
 		return
 	}
@@ -272,6 +276,9 @@ func (r *Run) tryTableReplay(o *Obligation, rf *ReplayFile) {
 	if err != nil {
 		// no template of its own: the property's bounded corpus (the real code run on generated inputs) is the replay
 		tb, err = os.ReadFile(filepath.Join(r.Out, "replay_templates", "bounded."+r.Prop+"-corpus.tmpl"))
+		if err != nil {
+			tb, err = os.ReadFile(filepath.Join(r.Out, "replay_templates", "bounded."+r.Prop+"-battery.tmpl"))
+		}
 		if err != nil {
 			return
 		}
